@@ -150,7 +150,28 @@ def stage_node(ctx, e, only=None, n=None):
                                           last_update=__import__("datetime").datetime(2020, 1, 1) + __import__("datetime").timedelta(days=rng.randint(0, 50), seconds=i))
             stub.states[str(c.path)] = rng.choice(STATES + [None])
             files.append(f); copies.append(c)
-        kind = rng.choice(list(only) if only else ["rwait", "release", "refresh", "open", "readytask", "checktask", "readytask", "checktask"])
+        kind = rng.choice(list(only) if only else ["rwait", "release", "refresh", "open", "readypath", "readytask", "checktask", "readytask", "checktask"])
+        if kind == "readypath":
+            # `ready_path` (used before hashing a not-yet-tracked file during import): ready only on a resident answer; a
+            # released file is sent hsm_restore; an lfs failure is not "ready"
+            c = rng.choice(copies)
+            st = rng.choice(STATES + [None, None])
+            stub.queue[:] = [st]
+            stub.calls.clear()
+            try:
+                res = bool(io.ready_path(c.file.path))
+            except Exception as ex:  # noqa
+                ctx.violation("readypath:raised", f"ready_path raised {type(ex).__name__}: {ex} (lfs answer {st})", {"kind": "readypath", "state": st})
+                continue
+            ops.append(f"hsmopen {st or '-'}")
+            exps.append(str(int(res)))
+            kinds.append("readypath")
+            if res and st not in ("restored", "unarchived"):
+                ctx.violation("readypath:nonresident", f"ready_path reported the file ready for I/O although lfs answered {st!r}",
+                              {"kind": "readypath", "state": st})
+            if st == "released" and ("restore", str(c.path)) not in stub.calls:
+                ctx.violation("readypath:no-restore", "ready_path did not request the restore of a released file", {"kind": "readypath"})
+            continue
         if kind in ("readytask", "checktask"):
             # the whole task (generator with deferred re-queues) on the real queue: k waiting answers, then a final one
             import alpenhorn.io._default_asyncs as dasync
